@@ -391,6 +391,100 @@ def run(model: RepoModel, rep, tier: str):
 
     check_tmp_elimination(model, rep, "C01.R6")
     check_self_unification(model, rep, P, handlers)
+    check_receiver_param_removal(model, rep, "C01.R7")
+    check_default_values(model, rep, P)
+    from .c05 import _r9_hoisting
+    _r9_hoisting(model, rep, "C01.R9")
+
+
+def check_receiver_param_removal(model: RepoModel, rep, RID: str, declare: bool = False):
+    """The helper that finds a method's receiver parameter also removes it from the parameter list.  Its caller guards the *renaming*
+    for static methods, not the call, so the helper itself must leave static methods alone (shared by C01.R7 and C05.R10)."""
+    if declare:
+        rep.rule(RID, "the receiver parameter is removed only from methods that have one: the helper that pops the first parameter returns "
+                      "before popping when the method is a staticmethod", 1)
+    from ..cfg import cfg_of
+    bm = model.module(BASIC)
+    f = bm.functions.get("find_python_method_first_parameter")
+    if f is None:
+        raise AnalysisError("find_python_method_first_parameter vanished")
+    cfg = cfg_of(f.node)
+    key = f"{BASIC}::find_python_method_first_parameter::static methods keep their first parameter"
+    stores = [n for n in cfg.g.nodes if cfg.kind[n] == "stmt" and isinstance(cfg.stmt[n], ast.Assign)
+              and isinstance(cfg.stmt[n].targets[0], ast.Subscript) and const_str(cfg.stmt[n].targets[0].slice) == "parameters"]
+    pops = [n for n in cfg.g.nodes for c in cfg.calls_at(n) if isinstance(c.func, ast.Attribute) and c.func.attr in ("pop", "remove")
+            and "parameters" in norm(c.func.value)]
+    dels = [n for n in cfg.g.nodes if cfg.kind[n] == "stmt" and isinstance(cfg.stmt[n], ast.Delete)]
+    removal = stores + pops + dels
+    if not removal:
+        rep.holds(RID, key, BASIC, f.node.lineno, "the helper does not modify the parameter list")
+        return
+    guards = [t for (t, lab), b in cfg.branch_of.items() if lab == "F" and isinstance(cfg.stmt[t], ast.If)
+              and any(isinstance(x, ast.Constant) and x.value == "staticmethod" for x in ast.walk(cfg.stmt[t].test))
+              and any(isinstance(b_, ast.Return) for b_ in cfg.stmt[t].body)]
+    ok = bool(guards) and all(any(cfg.dominates(cfg.branch_of[(g, "F")], r) for g in guards) for r in removal)
+    if ok:
+        rep.holds(RID, key, BASIC, cfg.stmt[removal[0]].lineno, "`if ... 'staticmethod' in attrs: return` dominates the removal of the first parameter")
+    else:
+        rep.violation(RID, key, BASIC, cfg.stmt[removal[0]].lineno,
+                      "find_python_method_first_parameter removes the first parameter_decl from the method's parameter list without first "
+                      "returning for a staticmethod; adjust_python_self only guards the renaming, not this call, so a @staticmethod loses "
+                      "its first parameter: its uses in the body are unresolved or bind to a module-level variable of the same name")
+
+
+def check_default_values(model: RepoModel, rep, P: ClassInfo):
+    """C01.R8: a default value is evaluated when the `def` executes.  The frontend emits a default directly only for constant tokens;
+    everything else is captured into a variable at the definition.  `identifier` is in the literal handler map, so `is_literal(x)`
+    alone does not mean constant."""
+    rep.rule("C01.R8", "default arguments are evaluated at the definition: a default value is attached to the parameter directly only under "
+                       "a test that excludes names (`identifier` is handled by the literal map); every default-parameter branch agrees", 2)
+    fd = P.methods.get("function_definition")
+    if fd is None:
+        raise AnalysisError("python handler function_definition vanished")
+    lit_keys = set()
+    for f in P.methods.values():
+        for n in walk_no_nested(f.node):
+            if isinstance(n, ast.Assign) and any(is_self_attr(t, "LITERAL_MAP") for t in n.targets) and isinstance(n.value, ast.Dict):
+                lit_keys |= {const_str(k) for k in n.value.keys if k is not None and const_str(k)}
+    names_are_literals = "identifier" in lit_keys
+    rep.analysed["python literal map"] = sorted(lit_keys)
+    pv = Prov(fd)
+    n_found = 0
+    for n in walk_no_nested(fd.node):
+        if not (isinstance(n, ast.If) and any(isinstance(c, ast.Call) and is_self_attr(c.func, "is_literal") for c in ast.walk(n.test))):
+            continue
+        # the direct emission: parameter_decl.default_value <- parse(value child) inside the taken branch
+        direct = False
+        for d in (x for b in n.body for x in ast.walk(b)):
+            if isinstance(d, ast.Dict):
+                for k, v in zip(d.keys, d.values):
+                    if k is not None and const_str(k) == "default_value" and isinstance(v, ast.Name) and v.id in pv.parsed:
+                        direct = True
+        if not direct:
+            continue
+        n_found += 1
+        lit_arg = next(c.args[0] for c in ast.walk(n.test) if isinstance(c, ast.Call) and is_self_attr(c.func, "is_literal") and c.args)
+        vname = lit_arg.id if isinstance(lit_arg, ast.Name) else None
+        branch = None
+        cur_if = n
+        # which parameter kind this is: the nearest enclosing `== "<kind>"` comparison
+        for outer in walk_no_nested(fd.node):
+            if isinstance(outer, ast.If) and isinstance(outer.test, ast.Compare) and const_str(outer.test.comparators[0]) \
+                    and any(x is n for b in outer.body for x in ast.walk(b)):
+                branch = const_str(outer.test.comparators[0])
+        key = f"{PY}::Parser.function_definition::{branch or 'default parameter'}::direct default only for constants"
+        excl = any(isinstance(x, ast.Compare) and isinstance(x.ops[0], ast.NotEq) and isinstance(x.left, ast.Attribute) and x.left.attr == "type"
+                   and isinstance(x.left.value, ast.Name) and x.left.value.id == vname and const_str(x.comparators[0]) == "identifier"
+                   for x in ast.walk(n.test)) and isinstance(n.test, ast.BoolOp) and isinstance(n.test.op, ast.And)
+        if not names_are_literals or excl:
+            rep.holds("C01.R8", key, PY, n.lineno, f"`{norm(n.test)}`")
+        else:
+            rep.violation("C01.R8", key, PY, n.lineno,
+                          f"the default value is attached directly under `{norm(n.test)}`; `identifier` has a literal handler, so a default that "
+                          f"names a variable (`def f(a, b=limit)`) is stored by name and read when the function is called -- after the variable "
+                          f"may have been rebound, or shadowed by an earlier parameter -- instead of being captured when the def executes")
+    if n_found < 2:
+        raise AnalysisError(f"only {n_found} default-parameter branch(es) with a direct emission found in function_definition")
 
 
 BASIC = "events/default_event_handlers/basic.py"
@@ -497,7 +591,8 @@ def check_tmp_elimination(model: RepoModel, rep, RID: str):
                 return idx, st.targets[0].elts[0].id, st.targets[0].elts[1].id
         return idx, None, None
 
-    outer = next((n for n in fn.body if isinstance(n, ast.For) and isinstance(n.iter, ast.Call) and call_name(n.iter) == "range"), None)
+    from ..model import effective_body
+    outer = next((n for n in effective_body(fn) if isinstance(n, ast.For) and isinstance(n.iter, ast.Call) and call_name(n.iter) == "range"), None)
     if outer is None:
         raise AnalysisError("remove_unnecessary_tmp_variables_in_list: backward loop over the statement list not found")
     I, CO, CC = info_pair(outer)
@@ -610,6 +705,11 @@ MUTANTS = [
     ("else-body-dropped", PY, _t("        new_else_body = []\n        #self.sync_tmp_variable(new_else_body, statements)\n        if alternative is not None:\n            for stmt in alternative.named_children:\n                self.parse(stmt, new_else_body)\n\n        self.append_stmts(statements, node, {\"while_stmt\": {\"condition\": shadow_condition, \"body\": new_while_body, \"else_body\": new_else_body}})",
                                  "        new_else_body = []\n        #self.sync_tmp_variable(new_else_body, statements)\n        if alternative is not None:\n            for stmt in alternative.named_children:\n                self.parse(stmt, new_else_body)\n\n        self.append_stmts(statements, node, {\"while_stmt\": {\"condition\": shadow_condition, \"body\": new_while_body}})"),
      "list `new_else_body`"),
+    ("default-names-read-at-call-time", PY, _t('                    if self.is_literal(parameter_value) and parameter_value.type != "identifier":\n                        shadow_value = self.parse(parameter_value, statements)\n                        parameter_decls.append(self.add_col_row_info(\n                            parameter,',
+                                               '                    if self.is_literal(parameter_value):\n                        shadow_value = self.parse(parameter_value, statements)\n                        parameter_decls.append(self.add_col_row_info(\n                            parameter,'),
+     "default_parameter::direct default only for constants"),
+    ("staticmethod-loses-first-parameter", BASIC, _t('    if "attrs" in method_decl["method_decl"] and "staticmethod" in method_decl["method_decl"]["attrs"]:\n        return ""\n', ''),
+     "static methods keep their first parameter"),
     ("self-unification-skips-name", BASIC, _t('                if key == "attrs":\n                    continue\n                if isinstance(value, (list, dict)):\n                    adjust_python_self',
                                               '                if key in ("attrs", "name"):\n                    continue\n                if isinstance(value, (list, dict)):\n                    adjust_python_self'),
      "skipped key `name`"),
